@@ -164,3 +164,14 @@ Proof.
   rewrite (log_softmax_spec l H). rewrite combine_map_snd, map_map. reflexivity.
 Qed.
 
+
+(* ---- grouped statement used by Props/Properties_C02_scalar.v ---- *)
+Theorem softmax_family_spec_all l t : l <> [] ->
+  log_softmax l = map (fun x => x - ln (sum_exp l)) l /\
+  softmax l = map (fun x => exp x / sum_exp l) l /\
+  sum_list (softmax l) = 1 /\
+  softmax_cross_entropy l t = - sum_list (map (fun tx => fst tx * (snd tx - ln (sum_exp l))) (combine t l)).
+Proof.
+  intros H. exact (conj (log_softmax_spec l H) (conj (softmax_spec l H) (conj (softmax_sums_to_one l H)
+                  (softmax_cross_entropy_spec l t H)))).
+Qed.
